@@ -144,7 +144,26 @@ pub fn parse_dot(dot: &str) -> Facts {
                 let to: String = after.chars().take_while(|c| c.is_ascii_digit()).collect();
                 let Ok(to) = to.parse::<usize>() else { return Facts::bad("bad edge target") };
                 let Some(lp) = after.find("[label=\"") else { return Facts::bad("edge without label") };
-                let lab: String = after[lp + 8..].chars().take_while(|c| *c != '"').collect();
+                // a DOT quoted string: a backslash escapes the quote and itself (the label ends at the first unescaped quote)
+                let mut lab = String::new();
+                let mut esc = false;
+                let mut closed = false;
+                for c in after[lp + 8..].chars() {
+                    if esc {
+                        lab.push(c);
+                        esc = false;
+                    } else if c == '\\' {
+                        esc = true;
+                    } else if c == '"' {
+                        closed = true;
+                        break;
+                    } else {
+                        lab.push(c);
+                    }
+                }
+                if !closed {
+                    return Facts::bad("edge label is not a closed DOT string");
+                }
                 f.edges.push((from, lab, to));
                 continue;
             }
